@@ -293,11 +293,14 @@ pub fn run_bounded<F: Future>(fut: F, max_polls: u32) -> (Option<F::Output>, u32
 pub const LOG_OFF: u8 = 0;
 pub const LOG_CAPTURE: u8 = 1;
 pub const LOG_SCHED: u8 = 2;
+/// format every record (as a consumer would) on threads that set FORMAT_LOGS, then drop it
+pub const LOG_FORMAT: u8 = 3;
 
 static LOG_MODE: AtomicU8 = AtomicU8::new(LOG_OFF);
 pub static LOG_RECORDS_TOTAL: AtomicU64 = AtomicU64::new(0);
 
 thread_local! {
+    pub static FORMAT_LOGS: std::cell::Cell<bool> = std::cell::Cell::new(false);
     pub static CAPTURE: RefCell<Vec<(log::Level, String, String)>> = RefCell::new(Vec::new());
     /// per-thread scheduling hook (set by the thread scheduler for its worker threads)
     pub static SCHED_HOOK: RefCell<Option<Box<dyn Fn(&str)>>> = RefCell::new(None);
@@ -326,6 +329,13 @@ impl log::Log for HarnessLogger {
                             f(&msg);
                         }
                     });
+                }
+            }
+            LOG_FORMAT => {
+                if FORMAT_LOGS.with(|f| f.get()) {
+                    LOG_RECORDS_TOTAL.fetch_add(1, Ordering::Relaxed);
+                    let msg = format!("{}", record.args());
+                    std::hint::black_box(&msg);
                 }
             }
             _ => {}
